@@ -913,7 +913,12 @@ class Interp:
 
     def call_func(self, fn, args, kwargs, node=None):
         c = self.world.contract_for(fn)
-        if c is not None and fn.node not in self.fn_stack and not self.spec:
+        if c is not None and not self.spec and (
+                fn.node not in self.fn_stack or getattr(
+                    self.world, 'recursive_contracts', False)):
+            # (a recursive call goes to the function's own contract only
+            # when the world asks for it: induction hypothesis, partial
+            # correctness)
             return self.world.apply_contract(c, fn, args, kwargs, self, node)
         if self.depth > 12:
             raise Unsupported('inlining depth')
